@@ -33,7 +33,9 @@ func contiguous(frame []byte) readResult {
 func checkC07(frame []byte, steps []guard.Step) (sig, msg string) {
 	base := contiguous(frame)
 	sr := &guard.ScriptReader{Data: frame, Steps: steps}
-	got := readScripted(sr, len(frame), func() interface{} { return vf.Failure{Property: "C07", Kind: "hang", Case: mustJSON(caseC07{frame, steps}), Signature: "hang"} })
+	got := readScripted(sr, len(frame), func() interface{} {
+		return vf.Failure{Property: "C07", Kind: "hang", Case: mustJSON(caseC07{frame, steps}), Signature: "hang"}
+	})
 	if d := sameResult(base, got); d != "" {
 		return "fragmentation", fmt.Sprintf("frame %s delivered as %s: %s\ncontiguous: ok=%v err=%v\nfragmented: ok=%v err=%v", hx(frame), renderSteps(steps), d, base.OK, base.Err, got.OK, got.Err)
 	}
